@@ -15,6 +15,7 @@ import (
 	oci "github.com/opencontainers/runtime-spec/specs-go"
 	"sigs.k8s.io/yaml"
 	"tags.cncf.io/container-device-interface/pkg/cdi"
+	"tags.cncf.io/container-device-interface/pkg/parser"
 	specs "tags.cncf.io/container-device-interface/specs-go"
 )
 
@@ -640,6 +641,9 @@ func (cacheStream) Execute(c Case) {
 			vs = append(vs, map[string]any{"vendor": hx(v), "paths": hxList(paths)})
 		}
 		obs["vendorspecs"] = vs
+		// redundant entry points: GetSpecErrors, Spec.GetDevice/GetVendor/GetClass, Device.GetSpec/GetQualifiedName
+		// must agree with the primary ones observed above (the model states them as equal; see Main.lean `withAux`)
+		obs["aux"] = cacheAux(cache, auto)
 		// derived cases: injections that resolve — every listed device in listing order; reversed with a
 		// repetition; a random selection (the random requests of the generator mostly hit an unknown name)
 		if devs := cache.ListDevices(); len(devs) > 0 && c["nospawn"] == nil {
@@ -731,4 +735,97 @@ func (cacheStream) Execute(c Case) {
 			obs["matchesapply"] = aerr == nil && reflect.DeepEqual(ref, target) && jsonImage(ref) == jsonImage(target)
 		}
 	}
+}
+
+
+// cacheAux cross-checks the accessor-style and per-Spec entry points of the cache against the
+// primary query API on the same cache state; every discrepancy is one string.
+func cacheAux(cache *cdi.Cache, auto bool) []any {
+	aux := []any{}
+	bad := func(f string, a ...any) { aux = append(aux, fmt.Sprintf(f, a...)) }
+	all := cache.GetErrors()
+	loaded := map[string]bool{}
+	for _, v := range cache.ListVendors() {
+		for _, s := range cache.GetVendorSpecs(v) {
+			loaded[s.GetPath()] = true
+			if s.GetVendor() != v {
+				bad("GetVendorSpecs(%q) returned a Spec of vendor %q", v, s.GetVendor())
+			}
+			if vv, cc := parser.ParseQualifier(s.Kind); vv != s.GetVendor() || cc != s.GetClass() {
+				bad("Spec.GetVendor/GetClass = %q/%q for kind %q", s.GetVendor(), s.GetClass(), s.Kind)
+			}
+			se := cache.GetSpecErrors(s)
+			if len(se) != len(all[s.GetPath()]) {
+				bad("GetSpecErrors(%s) has %d errors, GetErrors()[path] has %d", s.GetPath(), len(se), len(all[s.GetPath()]))
+			}
+			for i := range s.Devices {
+				name := s.Devices[i].Name
+				d := s.GetDevice(name)
+				if d == nil {
+					bad("Spec.GetDevice(%q) = nil for a device of %s", name, s.GetPath())
+					continue
+				}
+				if d.Name != name || d.GetSpec() != s {
+					bad("Spec.GetDevice(%q) of %s returned device %q of %s", name, s.GetPath(), d.Name, d.GetSpec().GetPath())
+				}
+				if q := parser.QualifiedName(s.GetVendor(), s.GetClass(), name); d.GetQualifiedName() != q {
+					bad("Device.GetQualifiedName() = %q, want %q", d.GetQualifiedName(), q)
+				}
+				if d.Device != &s.Devices[i] && !reflect.DeepEqual(*d.Device, s.Devices[i]) {
+					bad("Spec.GetDevice(%q) of %s is not the Spec's device entry", name, s.GetPath())
+				}
+			}
+			if s.GetDevice("no-such-device-name") != nil {
+				bad("Spec.GetDevice of an unknown name is not nil")
+			}
+		}
+	}
+	for _, q := range cache.ListDevices() {
+		d := cache.GetDevice(q)
+		if d == nil {
+			bad("ListDevices names %q but GetDevice returns nil", q)
+			continue
+		}
+		if d.GetQualifiedName() != q {
+			bad("GetDevice(%q).GetQualifiedName() = %q", q, d.GetQualifiedName())
+		}
+		if sd := d.GetSpec().GetDevice(d.Name); sd != d {
+			bad("GetDevice(%q) is not its Spec's GetDevice(%q)", q, d.Name)
+		}
+		if !loaded[d.GetSpec().GetPath()] {
+			bad("GetDevice(%q) belongs to %s, which GetVendorSpecs does not list", q, d.GetSpec().GetPath())
+		}
+	}
+	// directory errors are re-created by every watch update (any query may run one): compare keys, on
+	// two readings taken back to back, and give a concurrent watcher event two more chances
+	dirErrs := cache.GetSpecDirErrors()
+	for try := 0; ; try++ {
+		dirErrs = cache.GetSpecDirErrors()
+		now := cache.GetErrors()
+		missing := ""
+		for k := range dirErrs {
+			if es, ok := now[k]; !ok || len(es) != 1 {
+				missing = k
+			}
+		}
+		if missing == "" {
+			break
+		}
+		if try == 2 {
+			bad("GetSpecDirErrors()[%s] is not reported by GetErrors()", missing)
+			break
+		}
+	}
+	if !auto && len(dirErrs) != 0 {
+		bad("GetSpecDirErrors() is not empty without auto-refresh")
+	}
+	// a Configure() call without options changes nothing and reports no error
+	before := fmt.Sprint(cache.ListDevices(), cache.GetSpecDirectories())
+	if err := cache.Configure(); err != nil {
+		bad("Configure() without options failed: %v", err)
+	}
+	if after := fmt.Sprint(cache.ListDevices(), cache.GetSpecDirectories()); after != before {
+		bad("Configure() without options changed the cache")
+	}
+	return aux
 }
